@@ -34,6 +34,9 @@ def _is_snapshot(e):
 
 def rules(ctx):
     P, R = ctx.prog, ctx.res
+    from .C14 import derived_fields
+    ctx.rule('R05.7', "a field of model objects outside the frozen bookkeeping fields that is written together with the terms / a bookkeeping field is written by every other mutator of that state (no stale memo)", floor=1)
+    derived_fields(ctx, 'R05.7')
     E = Effects(P, R)
     E.build()
     ctx.rule('R05.1', "non-in-place operators mutate neither operand and return a fresh object", floor=28)
@@ -378,6 +381,34 @@ def imul_rules(ctx, rid):
                              "snapshot `%s` taken before self is emptied" % nm if okb and _is_snapshot(v) else
                              "`%s = %s` is not a snapshot taken before self is emptied: with other is self the "
                              "product is computed from an already emptied operand" % (nm, src(v)))
+        # product terms accumulate: distinct factor pairs collapse onto one canonical key (x*x = x, key order), so every
+        # store of a product term into self is `+=`
+        stores = []
+        for n in g.stmts():
+            if isinstance(n, (ast.Assign, ast.AugAssign)):
+                for t in (n.targets if isinstance(n, ast.Assign) else [n.target]):
+                    if isinstance(t, ast.Subscript) and is_name(t.value, sn):
+                        facts = []
+                        for t_, pol, o in g.edge_dominators(n):
+                            facts += compare_atoms(t_, pol)
+                        if ('truthy', 'isinstance(%s, dict)' % oth) in facts:
+                            stores.append(n)
+            if isinstance(n, ast.Expr) and isinstance(n.value, ast.Call) and isinstance(n.value.func, ast.Attribute) \
+                    and n.value.func.attr in ('__setitem__', 'update', 'setdefault') and (
+                        is_name(n.value.func.value, sn) or src(n.value.func.value).startswith('super(')):
+                facts = []
+                for t_, pol, o in g.edge_dominators(n):
+                    facts += compare_atoms(t_, pol)
+                if ('truthy', 'isinstance(%s, dict)' % oth) in facts:
+                    stores.append(n)
+        for n in stores:
+            ok = isinstance(n, ast.AugAssign) and isinstance(n.op, (ast.Add, ast.Sub))
+            ctx.inst(rid, im, n, ok,
+                     "product term accumulated with %s" % ('+=' if ok and isinstance(n.op, ast.Add) else '-=') if ok else
+                     "`%s` stores a product term without accumulating: two factor pairs whose keys collapse onto the same "
+                     "canonical key (x*x = x, reordered labels) overwrite each other" % src(n)[:60])
+        if not stores:
+            ctx.inst(rid, im, 'product stores', False, "no store of product terms into self found in the model-operand branch")
         # every path of the dict branch passes the clear: no early return between the isinstance test and clear
         for t, pol, o in [(t, pol, o) for lp in dict_loops[:1] for t, pol, o in g.edge_dominators(lp)]:
             if pol and src(t) == 'isinstance(%s, dict)' % oth:
